@@ -156,6 +156,9 @@ class No(Axis):
     """ Entire 3D array is serialized """
     is_continuous = False
 
+    def label(self, variable):
+        return "All"
+
 
 class Year(Axis):
     is_time_like = True
